@@ -28,7 +28,7 @@ try:
     p = subprocess.run(['/verif/check', pid, '--tier', a.tier], stdout=subprocess.PIPE, stderr=subprocess.STDOUT, text=True, env=env, timeout=7200)
     log['check_rc'] = p.returncode; log['check_s'] = round(time.time() - t0, 1)
     log['check_lines'] = [l[:400] for l in p.stdout.split('\n') if l.startswith(('VIOLATION', 'KNOWN', 'INCONCLUSIVE', 'ENCODER', 'HOLDS', pid))][:8]
-    log['detected'] = p.returncode == 1
+    log['detected'] = p.returncode == 1 and any(l.startswith('VIOLATION property=%s ' % pid) for l in p.stdout.split('\n'))
 finally:
     sh('git -C %s checkout -- .' % T)
 if not a.skip_confirm:
